@@ -34,12 +34,7 @@ def line_col(tex_, off):
     return tex_.count('\n', 0, off) + 1, off - nl + 1
 
 
-def free_port():
-    s = socket.socket()
-    s.bind(('localhost', 0))
-    p = s.getsockname()[1]
-    s.close()
-    return p
+free_port = shellrun.free_port
 
 
 class C14(core.Check):
@@ -497,29 +492,21 @@ class C14(core.Check):
     # ------------------------------------------------------------------
     def judge_server(self, case):
         rnd = random.Random(case['s'])
-        port = free_port()
         d = tempfile.mkdtemp(prefix='srv_', dir=self.tmp)
         log = os.path.join(d, 'lt.log')
         planf = os.path.join(d, 'plan.json')
         with open(planf, 'w') as f:
             json.dump({'mode': 'words', 'regex': WORD}, f)
-        cmd = [env.PY, '-m', 'yalafi.shell', '--no-config', '--as-server', str(port), '--lt-command',
-               '%s -S %s' % (env.PY, shellrun.FAKELT), '--lt-options', '~--disable CFGRULE --enablecategories CFGCAT']
+
+        def make_cmd(port):
+            return [env.PY, '-m', 'yalafi.shell', '--no-config', '--as-server', str(port), '--lt-command',
+                    '%s -S %s' % (env.PY, shellrun.FAKELT), '--lt-options', '~--disable CFGRULE --enablecategories CFGCAT']
         e = env.child_env({'YVM_LT_LOG': log, 'YVM_LT_PLAN': planf})
-        srv = subprocess.Popen(cmd, cwd=d, env=e, stdout=subprocess.DEVNULL, stderr=subprocess.PIPE)
+        errp = os.path.join(d, 'server.stderr')
+        srv, port = shellrun.launch_server(make_cmd, d, lambda port: e, errp)
         cnt = {'fam_server': 1}
         try:
-            t0 = time.time()
-            up = False
-            while time.time() - t0 < 60:
-                try:
-                    socket.create_connection(('localhost', port), timeout=1).close()
-                    up = True
-                    break
-                except OSError:
-                    if srv.poll() is not None:
-                        break
-                    time.sleep(0.1)
+            up = srv is not None
             if not up:
                 return dict(ok=True, nt=False, key=None, cnt={'server_not_up': 1}, obs=None,
                             harness_error='server did not come up (inconclusive)')
@@ -563,11 +550,12 @@ class C14(core.Check):
                 cnt['server_requests'] = cnt.get('server_requests', 0) + 1
                 cnt['server_words_judged'] = cnt.get('server_words_judged', 0) + len(ms)
         finally:
-            srv.terminate()
-            try:
-                srv.wait(timeout=10)
-            except subprocess.TimeoutExpired:
-                srv.kill()
+            if srv is not None:
+                srv.terminate()
+                try:
+                    srv.wait(timeout=10)
+                except subprocess.TimeoutExpired:
+                    srv.kill()
             shutil.rmtree(d, ignore_errors=True)
         return dict(ok=True, nt=True, key=None, cnt=cnt, obs=dict(requests=case['nreq'], port=port))
 
